@@ -61,6 +61,11 @@ type nconf struct {
 	Clusters []*ncluster
 	// routing: host -> cluster under product "p1"; default cluster = first
 	Hosts map[string]string
+	// module data
+	TrustRanges   [][2]string
+	Compress      string // GZIP | BROTLI
+	CompressQ     int
+	CompressFlush int
 }
 
 var nodeRoot string
@@ -166,6 +171,21 @@ func sortRules(a []map[string]interface{}) {
 	}
 }
 
+// writeModuleConf writes the data files of the modules used by the run.
+func writeModuleConf(root string, c *nconf) {
+	if c.TrustRanges != nil {
+		var list []map[string]string
+		for _, r := range c.TrustRanges {
+			list = append(list, map[string]string{"Begin": r[0], "End": r[1]})
+		}
+		writeJSON(filepath.Join(root, "mod_trust_clientip/trust_client_ip.data"), map[string]interface{}{"Version": fmt.Sprintf("v%d", c.Version), "Config": map[string]interface{}{"inner": list}})
+	}
+	if c.Compress != "" {
+		writeJSON(filepath.Join(root, "mod_compress/compress_rule.data"), map[string]interface{}{"Version": fmt.Sprintf("v%d", c.Version), "Config": map[string]interface{}{
+			"p1": []map[string]interface{}{{"Cond": "default_t()", "Action": map[string]interface{}{"Cmd": c.Compress, "Quality": c.CompressQ, "FlushSize": c.CompressFlush}}}}})
+	}
+}
+
 type node struct {
 	s    *simrt.Sim
 	net  *simnet.Net
@@ -182,6 +202,7 @@ func startNode(s *simrt.Sim, net *simnet.Net, c *nconf, modules []string) (*node
 	// from the same point (a run must not depend on earlier runs of the process)
 	resetProcessCaches()
 	c.writeData(root)
+	writeModuleConf(root, c)
 	cfg, err := bfe_conf.BfeConfigLoad(filepath.Join(root, "bfe.conf"), root)
 	if err != nil {
 		return nil, fmt.Errorf("BfeConfigLoad: %v", err)
